@@ -128,20 +128,16 @@ theorem avg_sum_count_members (step t : Nat) (ms : List Series)
     specValue .avg step t ms = specValue .sum step t ms / specValue .count step t ms := by
   simp only [specValue, total_length_of_single hs h1]
 
-theorem members_count_fields {q : Query} (hf : q.fields ≠ [] ∨ q.without = true) (fn : Fn) (ss : List Series) (g : Str) (t : Nat) :
+theorem members_count_fields {q : Query} (hf : q.fields ≠ []) (fn : Fn) (ss : List Series) (g : Str) (t : Nat) :
     members (withFn q fn) ss g t = members (withFn q .count) ss g t := by
   unfold members groupOf sidOf withFn
-  rcases hf with hf | hf <;> simp [hf]
+  simp [hf]
 
-theorem aggAt_count_fields {q : Query} (hfn : q.fn = .count) (hf : q.fields ≠ [] ∨ q.without = true) (ss : List Series) (g : Str) (t : Nat) :
+theorem aggAt_count_fields {q : Query} (hfn : q.fn = .count) (hf : q.fields ≠ []) (ss : List Series) (g : Str) (t : Nat) :
     aggAt q ss g t =
       if (members q ss g t).isEmpty then none else some (specValue .count q.step t (members q ss g t)) := by
   rw [aggAt_members]
-  have : ¬ (q.fields = [] ∧ q.without = false) := by
-    rcases hf with hf | hf
-    · exact fun h => hf h.1
-    · intro h; rw [hf] at h; cases h.2
-  simp only [hfn, if_neg this, specValue]
+  simp only [hfn, if_neg hf, specValue]
 
 /-! ### grouping by all labels -/
 
